@@ -68,6 +68,9 @@ structure State where
   pads : Nat := 0
   uncomments : Nat := 0
   spaces : Nat := 0
+  /-- `last_reference_end`: where the last token written ends in the original code, when its
+  content was read from the original code and nothing else has been written since -/
+  lastEnd : Option Nat := none
   deriving Repr, DecidableEq
 
 /-- `output` -/
@@ -78,7 +81,7 @@ def init : State := {}
 
 /-- `push_str` -/
 def pushStr (s : State) (t : List UInt8) : State :=
-  { s with rout := t.reverse ++ s.rout, line := s.line + countNewLines t }
+  { s with rout := t.reverse ++ s.rout, line := s.line + countNewLines t, lastEnd := none }
 
 /-- `needs_space(next_character)` -/
 def needsSpace (s : State) (next : UInt8) : Bool :=
@@ -89,11 +92,11 @@ def needsSpace (s : State) (next : UInt8) : Bool :=
 /-- `uncomment` -/
 def uncomment (s : State) : State :=
   { s with rout := 10 :: s.rout, line := s.line + 1, commenting := false,
-           uncomments := s.uncomments + 1 }
+           uncomments := s.uncomments + 1, lastEnd := none }
 
 /-- `output.push(' ')` after a positive `needs_space` -/
 def pushSpace (s : State) : State :=
-  { s with rout := 32 :: s.rout, spaces := s.spaces + 1 }
+  { s with rout := 32 :: s.rout, spaces := s.spaces + 1, lastEnd := none }
 
 /-- `write_trivia` (`comment = true` for `TriviaKind::Comment`) -/
 def writeTrivia (s : State) (comment : Bool) (content : List UInt8) : State :=
@@ -110,22 +113,33 @@ def writeTrivia (s : State) (comment : Bool) (content : List UInt8) : State :=
 form: `n - line` newlines. -/
 def pad (s : State) (n : Nat) : State :=
   { s with rout := List.replicate (n - s.line) 10 ++ s.rout, line := s.line + (n - s.line),
-           pads := s.pads + (n - s.line) }
+           pads := s.pads + (n - s.line),
+           lastEnd := if n - s.line = 0 then s.lastEnd else none }
+
+/-- `follows_original`: the token is read from the original code (`ref = some (start, end)`) and
+starts exactly where the last written token ended in the original code. -/
+def followsOriginal (lastEnd : Option Nat) (ref : Option (Nat × Nat)) : Bool :=
+  match ref with
+  | some (a, _) => lastEnd == some a
+  | none => false
 
 /-- The part of `write_token_options` between the leading trivia and `push_str(content)`, for
 a non-empty content: `uncomment` if commenting, pad up to the recorded line, space check. -/
-def prepToken (s : State) (content : List UInt8) (line : Option Nat) (spaceCheck : Bool) : State :=
+def prepToken (s : State) (content : List UInt8) (line : Option Nat) (spaceCheck : Bool)
+    (ref : Option (Nat × Nat)) : State :=
   let s1 := if s.commenting then uncomment s else s
   let s2 := match line with
     | some n => pad s1 n
     | none => s1
   match content.head? with
-  | some c => if spaceCheck && needsSpace s2 c then pushSpace s2 else s2
+  | some c => if spaceCheck && !followsOriginal s2.lastEnd ref && needsSpace s2 c then pushSpace s2 else s2
   | none => s2
 
 /-- `write_token_options` without the trivia loops (`if !content.is_empty() { … }`). -/
-def writeTokenContent (s : State) (content : List UInt8) (line : Option Nat) (spaceCheck : Bool) : State :=
-  if content.isEmpty then s else pushStr (prepToken s content line spaceCheck) content
+def writeTokenContent (s : State) (content : List UInt8) (line : Option Nat) (spaceCheck : Bool)
+    (ref : Option (Nat × Nat)) : State :=
+  if content.isEmpty then s
+  else { pushStr (prepToken s content line spaceCheck ref) content with lastEnd := ref.map (·.2) }
 
 /-- `write_symbol` (`spaceCheck = true`) / `write_symbol_without_space_check` (`false`).
 `write_symbol("")` panics in Rust when not commenting (`expect("symbol cannot be empty")`);
@@ -135,14 +149,14 @@ def writeSymbol (s : State) (sym : List UInt8) (spaceCheck : Bool) : State :=
   else
     match sym.head? with
     | some c => if spaceCheck && needsSpace s c then pushStr (pushSpace s) sym else pushStr s sym
-    | none => s
+    | none => if spaceCheck then s else pushStr s sym
 
 /-- The primitive operations the hook traces. -/
 inductive Op where
   /-- `write_trivia` -/
   | trivia (comment : Bool) (text : List UInt8)
   /-- the content part of `write_token_options`; `line = get_line_number()` -/
-  | token (text : List UInt8) (line : Option Nat) (spaceCheck : Bool)
+  | token (text : List UInt8) (line : Option Nat) (spaceCheck : Bool) (ref : Option (Nat × Nat))
   /-- `write_symbol` / `write_symbol_without_space_check` -/
   | symbol (text : List UInt8) (spaceCheck : Bool)
   /-- a direct `self.push_str(..)` (variadic / generic type packs) -/
@@ -153,7 +167,7 @@ inductive Op where
 
 def step (s : State) : Op → State
   | .trivia c t => writeTrivia s c t
-  | .token t l sc => writeTokenContent s t l sc
+  | .token t l sc r => writeTokenContent s t l sc r
   | .symbol t sc => writeSymbol s t sc
   | .rawPush t => pushStr s t
   | .rawSpace => pushSpace s
@@ -175,13 +189,15 @@ structure Tok where
   line : Option Nat
   spaceCheck : Bool
   trailing : List Trivia
+  /-- `Position::LineNumberReference { start, end, .. }`: the byte range of the original code -/
+  ref : Option (Nat × Nat) := none
   deriving Repr, DecidableEq
 
 def Trivia.op (v : Trivia) : Op := .trivia v.comment v.text
 
 /-- `write_token_options(token, space_check)` -/
 def Tok.ops (t : Tok) : List Op :=
-  t.leading.map Trivia.op ++ (.token t.content t.line t.spaceCheck :: t.trailing.map Trivia.op)
+  t.leading.map Trivia.op ++ (.token t.content t.line t.spaceCheck t.ref :: t.trailing.map Trivia.op)
 
 def ops : List Tok → List Op
   | [] => []
@@ -191,7 +207,7 @@ def ops : List Tok → List Op
 
 def Op.text : Op → List UInt8
   | .trivia _ t => t
-  | .token t _ _ => t
+  | .token t _ _ _ => t
   | .symbol t _ => t
   | .rawPush t => t
   | .rawSpace => [32]
@@ -203,14 +219,14 @@ def texts : List Op → List UInt8
 /-- Only `write_trivia` / token-content operations (what a list of tokens produces). -/
 def Op.isPiece : Op → Bool
   | .trivia _ _ => true
-  | .token _ _ _ => true
+  | .token _ _ _ _ => true
   | _ => false
 
 /-- Would this operation call `uncomment` when `currently_commenting = p`? -/
 def Op.fires (p : Bool) : Op → Bool
   | .trivia true text => p && !isSingleLineComment text
   | .trivia false _ => false
-  | .token text _ _ => p && !text.isEmpty
+  | .token text _ _ _ => p && !text.isEmpty
   | .symbol _ _ => p
   | .rawPush _ => false
   | .rawSpace => false
@@ -219,7 +235,7 @@ def Op.fires (p : Bool) : Op → Bool
 def Op.pendingAfter (p : Bool) : Op → Bool
   | .trivia true text => isSingleLineComment text
   | .trivia false text => p && !text.contains 10
-  | .token text _ _ => if text.isEmpty then p else false
+  | .token text _ _ _ => if text.isEmpty then p else false
   | .symbol _ _ => false
   | .rawPush _ => p
   | .rawSpace => p
@@ -228,7 +244,7 @@ def Op.pendingAfter (p : Bool) : Op → Bool
 `currently_commenting = p` before: the pure line arithmetic of the writer (no bytes). -/
 def Op.lineAfter (cur : Nat) (p : Bool) : Op → Nat
   | .trivia c text => (if Op.fires p (.trivia c text) then cur + 1 else cur) + countNewLines text
-  | .token text line _ =>
+  | .token text line _ _ =>
     if text.isEmpty then cur
     else
       let cur1 := if p then cur + 1 else cur
@@ -242,7 +258,7 @@ def Op.lineAfter (cur : Nat) (p : Bool) : Op → Nat
 /-- A non-empty line-bearing content records the line it starts on: one plus the number of
 newlines of the text before it (`nl` = newlines so far). -/
 def Op.lineOk (nl : Nat) : Op → Bool
-  | .token text (some n) _ => text.isEmpty || n == nl + 1
+  | .token text (some n) _ _ => text.isEmpty || n == nl + 1
   | _ => true
 
 def linesOk (nl : Nat) : List Op → Bool
@@ -261,26 +277,33 @@ def lastOf (last : Option UInt8) (t : List UInt8) : Option UInt8 :=
   | [] => last
   | b :: _ => some b
 
+/-- `last_reference_end` after the operation, given its value before. -/
+def Op.endAfter (lastEnd : Option Nat) : Op → Option Nat
+  | .token text _ _ ref => if text.isEmpty then lastEnd else ref.map (·.2)
+  | _ => none
+
 /-- The space rule does not fire between the text written so far (`last` = its last byte)
-and this space-checked content. -/
-def Op.h3ok (last : Option UInt8) : Op → Bool
-  | .token text _ true =>
+and this space-checked content — or the content directly follows, in the original code, the
+original token written just before (`lastEnd`), in which case the rule is not consulted. -/
+def Op.h3ok (last : Option UInt8) (lastEnd : Option Nat) : Op → Bool
+  | .token text _ true ref =>
+    followsOriginal lastEnd ref ||
     match last, text.head? with
     | some e, some c => !shouldBreakWithSpace e c
     | _, _ => true
   | _ => true
 
 /-- H₃ -/
-def h3 (last : Option UInt8) : List Op → Bool
+def h3 (last : Option UInt8) (lastEnd : Option Nat) : List Op → Bool
   | [] => true
-  | op :: rest => op.h3ok last && h3 (lastOf last op.text) rest
+  | op :: rest => op.h3ok last lastEnd && h3 (lastOf last op.text) (op.endAfter lastEnd) rest
 
 /-! ### C04: static line accounting -/
 
 /-- A non-empty line-bearing content finds `current_line` (after a possible `uncomment`) at or
 before its recorded line. -/
 def Op.budget (cur : Nat) (p : Bool) : Op → Bool
-  | .token text (some n) _ => text.isEmpty || decide ((if p then cur + 1 else cur) ≤ n)
+  | .token text (some n) _ _ => text.isEmpty || decide ((if p then cur + 1 else cur) ≤ n)
   | _ => true
 
 /-- Static line budget of an op sequence from `current_line = cur`, `currently_commenting = p`. -/
@@ -299,7 +322,7 @@ def monotone (lo : Nat) (bump : Bool) : List Op → Bool
     countNewLines text == 0 &&
       monotone (if bump && !isSingleLineComment text then lo + 1 else lo) (isSingleLineComment text) rest
   | .trivia false text :: rest => countNewLines text == 0 && monotone lo bump rest
-  | .token text line _ :: rest =>
+  | .token text line _ _ :: rest =>
     if text.isEmpty then monotone lo bump rest
     else
       match line with
@@ -337,7 +360,7 @@ the bundler use; saturation at `usize::MAX` not modelled). -/
 def shiftLine (amount : Nat) (n : Nat) : Nat := n + amount
 
 def Op.shift (amount : Nat) : Op → Op
-  | .token t (some n) sc => .token t (some (shiftLine amount n)) sc
+  | .token t (some n) sc r => .token t (some (shiftLine amount n)) sc r
   | op => op
 
 def shiftOps (amount : Nat) (l : List Op) : List Op := l.map (Op.shift amount)
@@ -364,8 +387,10 @@ structure Tiling (s : List UInt8) (ts : List Tok) : Prop where
   lines : linesOk 0 (ops ts) = true
   comments : commentsOk false (ops ts) = true
 
-/-- H₃: nowhere does a space-checked content follow text with which the space rule fires. -/
-def H3 (ts : List Tok) : Prop := h3 none (ops ts) = true
+/-- H₃: nowhere does a space-checked content follow text with which the space rule fires,
+unless it is an original token directly following, in the original code, the original token
+written just before it. -/
+def H3 (ts : List Tok) : Prop := h3 none none (ops ts) = true
 
 instance (ts : List Tok) : Decidable (H3 ts) := by unfold H3; infer_instance
 
